@@ -94,7 +94,12 @@ fn gen_case(tape: Vec<u8>) -> Case {
         }
         model.chain_id = c;
     }
-    let doc = txgen::render_with(&model, shape, &to_form, &mut u, &mut |_, x, u| txgen::plain_number(x, u)).render();
+    let mut doc = txgen::render_with(&model, shape, &to_form, &mut u, &mut |_, x, u| txgen::plain_number(x, u)).render();
+    if shape == Shape::LegacyNoChain && u.ratio(1, 3) && doc.starts_with('{') && doc.len() > 2 {
+        // "no chain id" written out: the member is there, its value is null. Whatever a guard looks at (the key,
+        // the parsed value), what comes out without the flag must not be an unprotected signature.
+        doc.insert_str(1, "\"chainId\":null,");
+    }
     let other = loop {
         let o = gen_chain(&mut u).unwrap_or_else(|| Big::from_u128(5));
         if Some(&o) != model.chain_id.as_ref() {
@@ -190,6 +195,15 @@ fn judge(c: &Case, cls: &mut Classifier) -> Verdict {
     }
     let legacy = m.kind == Kind::Legacy;
     let cclass = chain_class(&m.chain_id);
+    let explicit_null = c.tx.doc.starts_with("{\"chainId\":null,");
+    if explicit_null && c.flag && out.ordinary_error() && out.stdout.is_empty() {
+        // refusing null as a chain id value altogether is allowed
+        cls.unspecified("chainId-null-refused-with-flag");
+        return Ok(());
+    }
+    if explicit_null {
+        cls.label("chainId-null");
+    }
     // (1) missing chain id without the override flag
     if legacy && m.chain_id.is_none() && !c.flag {
         if !out.ordinary_error() || !out.stdout.is_empty() {
@@ -367,8 +381,20 @@ fn judge_v(c: &VCase, cls: &mut Classifier) -> Verdict {
     let Some(want_v) = want_v else { return fail("c <= c_max", "larger", "bad case") };
     let r = ethnum::U256::from_be_bytes([0x11; 32]);
     let s = ethnum::U256::from_be_bytes([0x22; 32]);
+    // One case in four builds the signature with a recovery id whose "x reduced" bit is set (2 or 3, which k256
+    // produces when r's x coordinate was >= n): y_parity() is documented to return 0 or 1, so v must not change.
+    // from_parts is documented to panic on parts it considers invalid: a panic here is not asserted on.
+    let x_reduced = crate::engine::stable_hash(&c.doc) % 4 == 0;
+    let rec = u8::from(c.parity) + if x_reduced { 2 } else { 0 };
+    if x_reduced && catch(|| Signature::from_parts(r, s, rec)).is_err() {
+        cls.unspecified("from_parts-refuses-x-reduced-recovery-id");
+        return Ok(());
+    }
     let got = catch(|| {
-        let sig = Signature::from_parts(r, s, u8::from(c.parity));
+        let sig = Signature::from_parts(r, s, rec);
+        if sig.y_parity() != ethnum::U256::from(u8::from(c.parity)) {
+            return Err(format!("y_parity() = {} for recovery id {rec} (documented: 0 for even, 1 for odd parity)", sig.y_parity()));
+        }
         let chain = c.chain.as_ref().map(|b| ethnum::U256::from_be_bytes(b.to_be32().unwrap()));
         let v = sig.v(chain);
         let tx = serde_json::from_str::<Transaction>(&c.doc).map_err(|e| e.to_string())?;
@@ -376,7 +402,7 @@ fn judge_v(c: &VCase, cls: &mut Classifier) -> Verdict {
     });
     let (v, digest, _) = match got {
         Ok(Ok(x)) => x,
-        Ok(Err(e)) => return fail("accepted", e, format!("transaction refused: {}", crate::engine::truncate(&c.doc, 400))),
+        Ok(Err(e)) => return fail("accepted / y_parity in {0,1}", e, format!("transaction refused or y_parity out of range: {}", crate::engine::truncate(&c.doc, 400))),
         Err(p) => return fail("v", p, format!("Signature::v panicked for chain id {:?}", c.chain.as_ref().map(|b| b.to_dec()))),
     };
     if Big::from_be_bytes(&v) != want_v {
